@@ -10,7 +10,7 @@
    tokens (float_token; trusted to be JSON numbers, and parsed by an independent parser in the correspondence). *)
 From VF Require Import Base.Prelude Base.IPText Base.Utf8 Base.Json Spec.JsonGrammar Spec.JsonDenote
   Model.Reader Model.Layout Model.JsonPieces Model.Flow Model.MarshalFlow Model.Ipfix Model.Nf5
-  Proofs.JsonProofs Proofs.MarshalProofs Proofs.WfDecode Proofs.WfDecode9 Proofs.SflowJson.
+  Spec.JsonParser Proofs.JsonProofs Proofs.MarshalProofs Proofs.WfDecode Proofs.WfDecode9 Proofs.SflowJson Proofs.JsonParserProofs.
 From VF Require Model.Nf9 Model.Sflow Gen.JsonPieces Gen.Layouts.
 
 (* IPFIX: what is decoded from ANY datagram of octets is published as a JSON text denoting it *)
@@ -77,6 +77,33 @@ Theorem C05_address_text_plain : forall a, wf_bytes a -> Gstring (MarshalFlow.qu
 Proof. intros a H. exact (Gstring_plain _ (plain_ip a H)). Qed.
 Print Assumptions C05_address_text_plain.
 
+(* "Parsing it yields ...": the grammar is unambiguous - a text is related to at most one value - because an executable
+   parser (Spec/JsonParser.v) accepts every text of the grammar and returns the related value.  So the published IPFIX /
+   NetFlow v9 payload PARSES BACK to exactly the demanded document. *)
+Theorem C05_grammar_unambiguous : forall t v v', Gjson t v -> Gjson t v' -> v = v'.
+Proof. exact gjson_unambiguous. Qed.
+Print Assumptions C05_grammar_unambiguous.
+
+Theorem C05_parser_accepts_the_grammar : forall t v, Gjson t v -> parse_json t = Some v.
+Proof. exact parse_json_complete. Qed.
+Print Assumptions C05_parser_accepts_the_grammar.
+
+Theorem C05_ipfix_payload_parses_back : forall (C : Type) (ops : cache_ops C) im c a p c1 m nf,
+  wf_bytes p -> wf_bytes a ->
+  ipfix_decode ops im Gen.Layouts.ipfix_header_layout c a p = Ok (c1, DMsg m nf) ->
+  parse_json (flow_marshal true Gen.JsonPieces.ipfix_agent_pieces Gen.JsonPieces.ipfix_header_pieces (i_agent m) (i_header m) (i_sets m))
+  = Some (flow_json true ipfix_names a (i_header m) (i_sets m)).
+Proof. intros C ops im c a p c1 m nf Hp Ha E. apply parse_json_complete. exact (C05_ipfix_published_json C ops im c a p c1 m nf Hp Ha E). Qed.
+Print Assumptions C05_ipfix_payload_parses_back.
+
+Theorem C05_nf9_payload_parses_back : forall (C : Type) (ops : cache_ops C) im c a p c1 m nf,
+  wf_bytes p -> wf_bytes a ->
+  Nf9.nf9_decode ops im Gen.Layouts.nf9_header_layout c a p = Ok (c1, DMsg m nf) ->
+  parse_json (flow_marshal false Gen.JsonPieces.nf9_agent_pieces Gen.JsonPieces.nf9_header_pieces (Nf9.n9_agent m) (Nf9.n9_header m) (Nf9.n9_sets m))
+  = Some (flow_json false nf9_names a (Nf9.n9_header m) (Nf9.n9_sets m)).
+Proof. intros C ops im c a p c1 m nf Hp Ha E. apply parse_json_complete. exact (C05_nf9_published_json C ops im c a p c1 m nf Hp Ha E). Qed.
+Print Assumptions C05_nf9_payload_parses_back.
+
 (* ---- non-vacuity / sanity (tests, not theorems): hostile content comes out escaped ---- *)
 Example C05_hostile_string :
   json_string [34; 92; 10; 255; 195; 169; 65]       (* quote, backslash, LF, an invalid octet, e-acute, A *)
@@ -88,3 +115,8 @@ Proof. vm_compute. reflexivity. Qed.
 Example C05_nonfinite_float_is_a_string :
   val_json (VF32 2143289344) = VString (s2l "@F32:2143289344@") /\ val_json (VF32 1065353216) = VFloatTok (s2l "@F32:1065353216@").
 Proof. vm_compute. split; reflexivity. Qed.
+
+Example C05_parse_instance :
+  parse_json (encode_field true {| d_id := 82; d_pen := 9; d_val := VStr [34; 7] |})
+  = Some (VObject [(s2l "I", VInt 82); (s2l "V", VString [34; 7]); (s2l "E", VInt 9)]).
+Proof. vm_compute. reflexivity. Qed.
